@@ -15,11 +15,12 @@ RULE = ("random Cartesian triples away from the singular sets (rho>0.1, polar an
         "(random polynomial x trig in all three coordinates) take the same value at the same physical point after rebase in "
         "both directions; refusals: cylindrical<->spherical rebase (vectors, fields), points of another kind. non-trivial = "
         "vector not on a coordinate axis / field depends on >=2 coordinates; distinct = distinct case.")
+RULE = RULE + ' Also: a Cartesian system rotated (random angle, any of the three axes) against the Cartesian system derived from a cylindrical / spherical base system: curvilinear vectors re-expressed in it directly and via the unrotated system equal the own rotated components, dot products agree, the way back via the unrotated system is the identity.'
 RULE = RULE + ' Also: cylindrical / spherical vectors with one and two components: dot and magnitude in the system equal those after re-expression in Cartesian coordinates.'
 ASSUMPTIONS = ["vf/geom_ref.py transforms (from the definitions; spherical = (r, azimuth, polar) in this core)"]
 N = {"quick": dict(vectors=320, fields=64), "thorough": dict(vectors=4800, fields=640)}
 MIN_REACH = {"quick": {"rebase_to_cyl": 250, "rebase_to_sph": 250, "roundtrip": 500, "dot_magnitude": 500, "scale": 400,
-                       "from_curvilinear": 400, "field_value": 300, "refusal": 30, "symbolic": 20, "short_curvilinear_vector": 600, "field_value_short_point": 100},
+                       "from_curvilinear": 400, "field_value": 300, "refusal": 30, "symbolic": 20, "short_curvilinear_vector": 600, "rotated_cartesian": 100, "field_value_short_point": 100},
              "thorough": {"rebase_to_cyl": 4000, "roundtrip": 8000, "field_value": 3000}}
 SHARD_TIMEOUT = {"quick": 600, "thorough": 3000}
 
@@ -192,6 +193,69 @@ def curvilinear_case(r, sy, rec):
                 rec.violation(f"magnitude:{name}:short", f"magnitude of the {k}-component {name} vector {case['triple'][:k]} is {m_sys} in {name} but {m_cart} after re-expression in Cartesian coordinates", sc)
 
 
+def _rot(c, th, axis):
+    """components, in a frame rotated by th about coordinate axis `axis`, of the fixed vector with components c"""
+    i, j, k = axis, (axis + 1) % 3, (axis + 2) % 3
+    out = [0.0, 0.0, 0.0]
+    out[i] = c[i]
+    out[j] = c[j] * math.cos(th) + c[k] * math.sin(th)
+    out[k] = -c[j] * math.sin(th) + c[k] * math.cos(th)
+    return out
+
+
+def rotated_case(r, rec):
+    """Systems derived the other way round: a curvilinear base system, the Cartesian system derived from it and a Cartesian
+    system rotated against that one.  Re-expressing a curvilinear vector in the rotated Cartesian system must give the
+    rotated components (own reference), directly and via the unrotated system, dot products must survive, and the way
+    back via the unrotated system is the identity.  The direct way back (rotated Cartesian -> curvilinear) is a known
+    finding of the pinned tree (the transformation table is applied in the rotated frame)."""
+    import sympy
+    from symplyphysics import CoordinateSystem, Vector, coordinates_transform, dot_vectors
+    from symplyphysics.core.coordinate_systems.coordinate_systems import coordinates_rotate
+    S = CoordinateSystem.System
+    for name, kind, back in (("cyl", S.CYLINDRICAL, G.cyl_to_cart), ("sph", S.SPHERICAL, G.sph_to_cart)):
+        base = CoordinateSystem(kind)
+        cart = coordinates_transform(base, S.CARTESIAN)
+        th = sympy.Rational(r.choice([-1, 1]) * r.randint(2, 30), 10)
+        axis = r.randrange(3)
+        rot = coordinates_rotate(cart, th, (cart.coord_system.i, cart.coord_system.j, cart.coord_system.k)[axis])
+        trips = []
+        for _ in range(2):
+            trips.append([sympy.Rational(r.randint(2, 60), 10), sympy.Rational(r.randint(-30, 30), 10),
+                          sympy.Rational(r.randint(-50, 50), 10) if name == "cyl" else sympy.Rational(r.randint(2, 29), 10)])
+        case = {"system": name, "rotation": str(th), "axis": axis, "triples": [[str(c) for c in t] for t in trips]}
+        rec.case(case)
+        rec.hit("rotated_cartesian")
+        try:
+            v, w = (Vector(list(t), base) for t in trips)
+            cv, cw = (back(*[float(c) for c in t]) for t in trips)
+            want = _rot(cv, float(th), axis)
+            direct = comps(v.rebase(rot))
+            two_step = comps(v.rebase(cart).rebase(rot))
+            if not all(G.close(a, b, 1e-9) for a, b in zip(direct, want)):
+                rec.violation(f"rebase-value:{name}->rotated-cart", f"Vector({case['triples'][0]}, {name}).rebase(Cartesian system rotated by {th} about axis {axis}) = {direct}, own transform {want}", case)
+                continue
+            if not all(G.close(a, b, 1e-9) for a, b in zip(two_step, want)):
+                rec.violation(f"rebase-value:{name}->cart->rotated-cart", f"{case['triples'][0]} via the unrotated system = {two_step}, own transform {want}", case)
+                continue
+            d = fl(dot_vectors(v.rebase(rot), w.rebase(rot)))
+            if not G.close(d, G.dot3(cv, cw), 1e-8) or not G.close(fl(dot_vectors(v, w)), G.dot3(cv, cw), 1e-8):
+                rec.violation(f"dot:{name}:rotated-cart", f"dot after re-expression in the rotated Cartesian system = {d}, in {name} = {fl(dot_vectors(v, w))}, own {G.dot3(cv, cw)}", case)
+                continue
+            rt = comps(v.rebase(rot).rebase(cart).rebase(base))
+            t = [float(c) for c in trips[0]]
+            ok = G.close(rt[0], t[0]) and G.angle_close(rt[1], t[1]) and (G.close(rt[2], t[2]) if name == "cyl" else G.angle_close(rt[2], t[2]))
+            if not ok:
+                rec.violation(f"roundtrip:{name}->rotated-cart->cart->{name}", f"{case['triples'][0]} -> rotated Cartesian -> Cartesian -> {name} = {rt}", case)
+                continue
+            rd = comps(v.rebase(rot).rebase(base))
+            ok = G.close(rd[0], t[0]) and G.angle_close(rd[1], t[1]) and (G.close(rd[2], t[2]) if name == "cyl" else G.angle_close(rd[2], t[2]))
+            if not ok:
+                rec.violation(f"roundtrip:{name}->rotated-cart->{name}:direct", f"{case['triples'][0]} -> Cartesian system rotated by {th} about axis {axis} -> {name} (directly) = {rd}", case)
+        except Exception as x:  # pylint: disable=broad-except
+            rec.violation(f"rotated-raises:{name}:{type(x).__name__}", f"rotated-system case {case} raised {type(x).__name__}: {str(x)[:100]}", case)
+
+
 def symbolic_case(sy, rec, r):
     import sympy
     from symplyphysics import Vector
@@ -342,6 +406,8 @@ def work(spec, rec):
             with harness.Watchdog(60):
                 vector_case(r, sy, rec, i)
                 curvilinear_case(r, sy, rec)
+                if i % 5 == 0:
+                    rotated_case(r, rec)
         except TimeoutError:
             rec.inconc("watchdog in vector case")
     for i in range(spec["fields"]):
